@@ -82,7 +82,12 @@ def admission_terms(ctx, cfg):
             if not adm:
                 unguarded += 1
                 continue
-            xs.add(adm[0][0][3])
+            # several admitting tests on the same distance (`d <= a && d <= b`) bound it by their minimum
+            same = [a for a, s_ in adm if a[2] == adm[0][0][2]]
+            bound = same[0][3]
+            for a in same[1:]:
+                bound = ("pure", "min", (bound, a[3]))
+            xs.add(bound)
     out["deflate::core::compress_fast"] = (sorted(xs, key=repr), unguarded)
     cn = c.fn("deflate::core::compress_normal")
     xs = set()
@@ -94,7 +99,25 @@ def admission_terms(ctx, cfg):
         ev3 = paths.Evaluator(c, effects=E, max_blocks=14, max_paths=2000)
         for x in ev3.run(cn, start_bb=start):
             for e in calls_named(x, "DictOxide::find_match"):
-                xs.add(e[2][2])
+                X = e[2][2]
+                # a minimum written as `if a < b { a } else { b }` hands over one operand and leaves the comparison on the path
+                others = []
+                for a, s_ in x.atoms[:e[6]] if len(e) > 6 else x.atoms:
+                    if a[0] != "bin" or a[1] not in ("Lt", "Le", "Gt", "Ge") or s_.single() is None:
+                        continue
+                    lhs, rhs, v = a[2], a[3], s_.single()
+                    op = a[1]
+                    # normalise to  small <= big  /  small < big
+                    if (op in ("Lt", "Le") and v == 1) or (op in ("Gt", "Ge") and v == 0):
+                        small, big = lhs, rhs
+                    else:
+                        small, big = rhs, lhs
+                    if small == X and big != X:
+                        others.append(big)
+                b = X
+                for o in others:
+                    b = ("pure", "min", (b, o))
+                xs.add(b)
     out["deflate::core::compress_normal"] = (sorted(xs, key=repr), 0)
     return out
 
@@ -141,7 +164,9 @@ def run(ctx):
     honoured = False
     for x in ev.run(fm):
         if x.outcome[0] == "return":
-            if any(a[0] == "bin" and a[1] == "Gt" and a[3] == P(3) and s.single() == 1 for a, s in x.atoms):
+            def is_maxdist(t):
+                return t == P(3) or (t[0] == "pure" and t[1] == "min" and any(is_maxdist(q) for q in t[2]))
+            if any(a[0] == "bin" and a[1] == "Gt" and is_maxdist(a[3]) and s.single() == 1 for a, s in x.atoms):
                 ops = tuple_ops(x.ret)
                 if ops and ops[0] == P(5):
                     honoured = True
